@@ -11,6 +11,7 @@ import (
 	"strings"
 	"sync"
 	"sync/atomic"
+	"time"
 
 	"github.com/tidwall/resp"
 	"github.com/tidwall/tile38/internal/server"
@@ -61,6 +62,7 @@ type concRunOut struct {
 	Events []concEvent        `json:"events"`
 	Dump   server.VerifState  `json:"dump"`
 	AOF    [][]string         `json:"aof"`
+	AOFErr string             `json:"aof_err,omitempty"` // the log is not a sequence of whole commands
 	Stats  map[string]int     `json:"stats"`
 }
 
@@ -243,7 +245,13 @@ func concRunOne(ri int, run *concRun, spin bool) (*concRunOut, error) {
 	b, _ := os.ReadFile(srv.AOFPath())
 	_, cmds, err := parseLog(b)
 	if err != nil {
-		return nil, fmt.Errorf("run %d: %v", ri, err)
+		// all clients have their replies and nothing is in flight: read once more (a background writer may have
+		// been in the middle of an append); a log that still does not parse is what the server wrote
+		time.Sleep(300 * time.Millisecond)
+		b, _ = os.ReadFile(srv.AOFPath())
+		if _, cmds, err = parseLog(b); err != nil {
+			out.AOFErr = fmt.Sprintf("%v (file of %d bytes, %d whole commands before it)", err, len(b), len(cmds))
+		}
 	}
 	out.AOF = cmds
 	return out, nil
@@ -450,7 +458,9 @@ func concVerify(args []string) int {
 			return 2
 		}
 		// the log is the serial order
-		if len(logged) != len(o.AOF) {
+		if o.AOFErr != "" {
+			add(0, "logorder", "the append-only file written during the run is not a sequence of whole commands: "+o.AOFErr)
+		} else if len(logged) != len(o.AOF) {
 			add(0, "logorder", fmt.Sprintf("log holds %d commands, the serial order has %d logged commands", len(o.AOF), len(logged)))
 		} else {
 			for i := range logged {
